@@ -135,7 +135,7 @@ def run(prop, tier, seed):
             corr.append((k, lv, "IR run vs language definition", mr[:200], sp[:200]))
     # the emitted structure alone (no rustc needed) on many more programs: block count, start block, translated label
     # table, white-heart target, serialised stacks, dispatch bounds — against the compiler model's IR
-    sprogs = [S.scripted(rng, with_read=True) for _ in range(250 if quick else 4000)] + \
+    sprogs = [S.scripted(rng, with_read=True) for _ in range(900 if quick else 6000)] + \
              [G.render(G.gen_program(rng)) for _ in range(100 if quick else 2000)]
     for lv in (1, 2):
         ssrc = C.run_impl(["compile %d %s" % (lv, G.cps(p)) for p in sprogs])
